@@ -83,6 +83,8 @@ FIXED = [
      "MSBAR c31, c32 of the coupling decoupling (order a_s^3 relative) used the POLE c20, c21: 91.889, 43.444 at nf=4 instead of 68.185, 25.667 (also .../c32)"),
     ("C15", "couplings_expanded_alphaem_running/non-finite", "expanded couplings with running alpha_em",
      "couplings_expanded_alphaem_running((1,1), [.35,.0075]/4pi, 3, 3, 4., 2500., False) -> a_em = NaN (beta0 swapped inside the logarithms)"),
+    ("C45", "info/AlphaS_Vals/scheme=MSBAR", "listed alpha_s from other thresholds",
+     "info_file.build_alphas used the raw MSbar m(mu_ref) values as thresholds instead of the solved m(m): alpha_s(1.5, nf=3) = 0.34470 in the info file vs 0.34637 used by the evolution"),
     ("C41", "v1-archive/theory/matching_order", "loaded with matching order (0, 0)",
      "v1.update_theory forced matching_order=[0,0] for v0.13 archives of any order"),
 ]
